@@ -25,7 +25,8 @@ META = dict(
     'phase shift, serial and pool branch): sample within contains and the '
     'cube, contains implies outer_bound.contains(shift(x)).',
     bounds=dict(ellipsoid_sample='d <= 2 quick / 3 thorough',
-                ellipsoid_compute='d = 1, <= 3 points (4 thorough)',
+                ellipsoid_compute='d = 1, <= 3 points (with 4 the nlsat '
+                'queries do not finish in 25 minutes)',
                 mixture='d <= 2 / 3', union='1-3 members, d <= 2',
                 nautilus='d = 1, cache <= 1, block 2, bounded rounds'),
     functions=['bounds/basic.py:UnitCube.*', 'Ellipsoid.compute/sample/'
@@ -60,8 +61,6 @@ def jobs(tier):
         add(S + 'ell_sample', dict(d=d), nra=180000)
     add(S + 'ell_compute', dict(d=1, n=2))
     add(S + 'ell_compute', dict(d=1, n=3))
-    if thorough:
-        add(S + 'ell_compute', dict(d=1, n=4), nra=120000)
     pats = [[True], [False], [True, False], [False, False], [True, True]]
     if thorough:
         pats += [[False, True, False], [False, False, False],
@@ -94,9 +93,17 @@ def jobs(tier):
     add(N + 'nb_sample', dict(d=1, n=1, cache=0, n_neural=2), block=B)
     add(N + 'nb_pool_merge', dict(d=1, pool=2, unroll=4, members_in_cube=True,
                                   open_uniform=True), block=B)
+    add(N + 'nb_pool_merge', dict(d=1, pool=2, unroll=3, members_in_cube=True,
+                                  open_uniform=True, periodic=[0]), block=B)
+    add(N + 'nb_sample', dict(d=1, n=1, cache=0, pool=2, unroll=4,
+                              members_in_cube=True, open_uniform=True,
+                              periodic=[0]), block=B, max_paths=6000)
     # with proposals outside the cube: the outer bound rejects in the workers
     add(N + 'nb_pool_merge', dict(d=1, pool=2, unroll=3, open_uniform=True),
         block=B, max_paths=6000)
+    # the unions of a nautilus bound are built from exactly the live points
+    add(N + 'nb_compute', dict(d=1, n=3, periodic=[0]))
+    add(N + 'nb_compute', dict(d=2, n=2))
     if thorough:
         add(U + 'sample', dict(d=2, npm=3, sizes=[3, 3], n=2, cache=1),
             block=1, max_paths=20000)
